@@ -505,7 +505,7 @@ func c06(r *lp.Run) {
 					ok, _ := genAccepts(paramSpec(loc, st, ex, sh))
 					key := fmt.Sprintf("%s %s %v %s", loc, st, ex, sh)
 					admitted[key] = ok
-					r.Case("admit", key, b2s(ok), "admit:"+b2s(ok), false)
+					r.Case("admitcfg", key, b2s(ok), "admit:"+b2s(ok), false)
 				}
 			}
 		}
